@@ -868,6 +868,25 @@ pub fn gen_c20<W: Write>(out: &mut W, thorough: bool, seed: u64) {
             )
             .unwrap();
             writeln!(out, "spshape 7").unwrap();
+            // every length-error combination, deterministically: too many / too few sites with and without
+            // least squares, data of another length than the sites
+            let yt = |k: usize| -> String {
+                (0..k)
+                    .map(|_| match kind {
+                        "f" => format!("F{}", hf(1.0)),
+                        "1" => "H21".to_string(),
+                        _ => "H22".to_string(),
+                    })
+                    .collect::<Vec<_>>()
+                    .join(" ")
+            };
+            let sites = |k: usize| -> String {
+                (0..k).map(|j| hf(pos * (j as f64 + 0.5) / (k as f64 + 1.0))).collect::<Vec<_>>().join(" ")
+            };
+            for (nt, ny, lsq) in [(n + 1, n + 1, 0), (n + 2, n + 2, 0), (n + 1, n + 1, 1), (n.saturating_sub(1), n.saturating_sub(1), 0), (n.saturating_sub(1), n.saturating_sub(1), 1), (n, n + 1, 0), (n + 1, n, 1)] {
+                writeln!(out, "csolve 7 0 0 {} {} {} {}", lsq, nt, sites(nt), yt(ny)).unwrap();
+                writeln!(out, "spshape 7").unwrap();
+            }
         }
 
         /* loading from JSON text */
